@@ -197,6 +197,19 @@ func (u *unifiedEdge) amtInRange(amt lnwire.MilliSatoshi) bool {
 		return false
 	}
 
+	// The hint policy derived from a blinded payment carries the path's
+	// aggregate HTLC maximum without flagging it (HasMaxHTLC is only set
+	// for policies that come from a channel update), so it has to be
+	// enforced explicitly. A zero value means no maximum was specified.
+	if u.blindedPayment != nil && u.policy.MaxHTLC != 0 &&
+		amt > u.policy.MaxHTLC {
+
+		log.Tracef("Exceeds blinded path's MaxHTLC: amt=%v, "+
+			"MaxHTLC=%v", amt, u.policy.MaxHTLC)
+
+		return false
+	}
+
 	// Skip channels for which this htlc is too small.
 	if amt < u.policy.MinHTLC {
 		log.Tracef("below policy's MinHTLC: amt=%v, MinHTLC=%v",
